@@ -12,7 +12,7 @@ From Coq Require Import Sorted.
 From Coq Require Import NArith.
 From Coq Require Import QArith.
 From QV Require Import Model.C20 Model.C20_b Proofs.C20 Proofs.C20_enum Proofs.C20_alg Proofs.C20_had
-  Proofs.C20_ext Proofs.C20_qft.
+  Proofs.C20_ext Proofs.C20_qft Proofs.C20_enrth.
 Open Scope Z_scope.
 
 (* ---------------------------------------------------------------- ladder *)
@@ -570,3 +570,39 @@ Proof.
   split; [lia|]. split; [reflexivity|]. split; [|reflexivity].
   intros d x Hd H. assert (d = 1%nat) as -> by lia. simpl in H. lia.
 Qed.
+
+(* ------------------------------------------------------- enr_thermal_dm *)
+(* exact rationals, every list of states, every per-mode occupation list
+   (zeros allowed: 0^0 = 1).  The populations of enr_thermal_dm are those of
+   the product of single-mode thermal states, restricted to the listed states
+   and renormalised; they sum to 1.  The normalising sum is non-zero whenever
+   the occupations are >= 0 and the vacuum is listed (it always is, by
+   C20_enumerate_exact). *)
+Theorem C20_enr_thermal_is_restricted_product :
+  forall dims n sts,
+    length n = length dims -> (forall st, In st sts -> length st = length dims) ->
+    (forall d nk, In (d, nk) (combine dims n) -> ~ (partition d nk == 0)%Q) ->
+    ~ (qsum (map (enr_weight n) sts) == 0)%Q ->
+    forall st, In st sts ->
+      (prod_weight dims n st / qsum (map (prod_weight dims n) sts)
+       == enr_weight n st / qsum (map (enr_weight n) sts))%Q.
+Proof. exact enr_thermal_restricted_product. Qed.
+Print Assumptions C20_enr_thermal_is_restricted_product.
+
+Theorem C20_enr_thermal_trace :
+  forall sts n, ~ (qsum (map (enr_weight n) sts) == 0)%Q -> (qsum (enr_thermal sts n) == 1)%Q.
+Proof. exact enr_thermal_trace. Qed.
+Print Assumptions C20_enr_thermal_trace.
+
+Theorem C20_enr_thermal_normaliser_nonzero :
+  forall sts n vac, (forall nk, In nk n -> (0 <= nk)%Q) -> In vac sts ->
+    (forall s, In s vac -> s = 0) -> ~ (qsum (map (enr_weight n) sts) == 0)%Q.
+Proof. exact enr_thermal_sum_positive. Qed.
+Print Assumptions C20_enr_thermal_normaliser_nonzero.
+
+(* instance with a zero and a non-zero occupation: dims [3;4], E = 2,
+   n = [1/2, 0]: only the states without quanta in the second mode survive *)
+Example C20_nonvacuous_enr_thermal :
+  map Qred (enr_thermal [[0;0];[0;1];[0;2];[1;0];[1;1];[2;0]] [(1 # 2)%Q; 0%Q])
+  = [(9 # 13)%Q; 0%Q; 0%Q; (3 # 13)%Q; 0%Q; (1 # 13)%Q].
+Proof. reflexivity. Qed.
